@@ -1,5 +1,6 @@
 from __future__ import annotations
 
+import copy
 from itertools import product
 from numbers import Integral
 
@@ -22,6 +23,11 @@ from ._random_state import RandomState
 def _choice_rng(state_data, a, size, replace, p, axis, shuffle):
     from ._expr import _rng_from_bitgen
 
+    if isinstance(state_data, tuple):
+        # (bit generator class, seed sequence): build the stream here, so that
+        # running the task never advances an object stored in the graph
+        bitgen_cls, seed_seq = state_data
+        state_data = bitgen_cls(seed_seq)
     state = _rng_from_bitgen(state_data)
     return state.choice(a, size=size, replace=replace, p=p, axis=axis, shuffle=shuffle)
 
@@ -133,7 +139,10 @@ class RandomChoice(IO):
         # array (mirrors _expr.Random._info). Derive a 128-bit entropy per block
         # from the root RNG via one SeedSequence — deterministic from the root,
         # so recompute is stable — and let the worker rebuild the state.
-        root_entropy = int.from_bytes(self._state.bytes(16), "little")
+        # Draw from a copy: the operand is a snapshot taken by ``choice`` and
+        # must stay one, because this property is evaluated again whenever the
+        # optimizer re-creates the node (see ``Random._info``).
+        root_entropy = int.from_bytes(copy.deepcopy(self._state).bytes(16), "little")
         words = (
             np.random.SeedSequence(root_entropy)
             .generate_state(len(self.sizes) * 4, dtype=np.uint32)
@@ -176,7 +185,8 @@ class RandomChoiceGenerator(RandomChoice):
 
     @cached_property
     def state_data(self):
-        return _spawn_bitgens(self._state, len(self.sizes))
+        bitgens = _spawn_bitgens(copy.deepcopy(self._state), len(self.sizes))
+        return [(type(b), b._seed_seq) for b in bitgens]
 
     def _layer(self) -> dict:
         keys = product([self._name], *[range(len(bd)) for bd in self.chunks])
